@@ -25,6 +25,7 @@ const (
 
 // interpreter is the per-worker state.
 type interpreter struct {
+	reflRT             types.Type
 	prog               *ssa.Program
 	globals            map[*ssa.Global]*value
 	inited             map[*ssa.Package]bool
@@ -518,6 +519,15 @@ func (fr *frame) prepareCall(call *ssa.CallCommon) (fn value, args []value) {
 		recv := v.(iface)
 		if recv.t == nil {
 			panic(fr.i.rtPanic("invalid memory address or nil pointer dereference (method call on nil interface)"))
+		}
+		if no, ok := recv.v.(nativeObj); ok {
+			if rt, ok := no.v.(reflType); ok {
+				fn = fr.i.reflTypeMethod(rt, call.Method.Name())
+				for _, arg := range call.Args {
+					args = append(args, fr.get(arg))
+				}
+				return
+			}
 		}
 		if f := fr.i.lookupMethod(recv.t, call.Method); f == nil {
 			panic(fmt.Sprintf("method set for dynamic type %v does not contain %s", recv.t, call.Method))
